@@ -350,6 +350,24 @@ impl DB {
             db.compaction_worker.schedule_task(TaskKind::Compaction);
         }
 
+        #[cfg(raindb_verif)]
+        crate::verif::event(db.options.db_path(), "Opened", |_| {
+            vec![
+                (
+                    "seq",
+                    crate::verif::Val::U(db_fields_guard.version_set.get_prev_sequence_number()),
+                ),
+                (
+                    "wal",
+                    crate::verif::Val::U(db_fields_guard.curr_wal_file_number),
+                ),
+                (
+                    "mem",
+                    crate::verif::memtable_entries(&**db.memtable()),
+                ),
+            ]
+        });
+
         MutexGuard::unlock_fair(db_fields_guard);
 
         Ok(db)
@@ -364,12 +382,20 @@ impl DB {
     pub fn get_snapshot(&self) -> Snapshot {
         let mut db_fields_guard = self.guarded_fields.lock();
         let latest_sequence_num = db_fields_guard.version_set.get_prev_sequence_number();
+        #[cfg(raindb_verif)]
+        crate::verif::event(self.options.db_path(), "Snapshot", |_| {
+            vec![("seq", crate::verif::Val::U(latest_sequence_num))]
+        });
         db_fields_guard.snapshots.new_snapshot(latest_sequence_num)
     }
 
     /// Release a previously acquired snapshot.
     pub fn release_snapshot(&self, snapshot: Snapshot) {
         let mut db_fields_guard = self.guarded_fields.lock();
+        #[cfg(raindb_verif)]
+        crate::verif::event(self.options.db_path(), "Release", |_| {
+            vec![("seq", crate::verif::Val::U(snapshot.sequence_number()))]
+        });
         db_fields_guard.snapshots.delete_snapshot(snapshot)
     }
 
@@ -386,6 +412,17 @@ impl DB {
         };
         let maybe_immutable_memtable = db_fields_guard.maybe_immutable_memtable.clone();
         let current_version = db_fields_guard.version_set.get_current_version();
+        #[cfg(raindb_verif)]
+        crate::verif::event(self.options.db_path(), "GetCapture", |_| {
+            vec![
+                ("seq", crate::verif::Val::U(snapshot)),
+                (
+                    "imm",
+                    crate::verif::Val::B(maybe_immutable_memtable.is_some()),
+                ),
+                ("key", crate::verif::Val::Bytes(key.to_vec())),
+            ]
+        });
 
         // Unlock mutex while reading from memtable or files
         let mut maybe_seek_charge: Option<SeekChargeMetadata> = None;
@@ -393,6 +430,9 @@ impl DB {
             &mut db_fields_guard,
             || -> RainDBResult<Option<Vec<u8>>> {
                 let internal_key = InternalKey::new_for_seeking(key.to_vec(), snapshot);
+
+                #[cfg(raindb_verif)]
+                crate::verif::sched_point(self.options.db_path(), "get_before_mem");
 
                 // Check the memtable first
                 if let Ok(maybe_value) = self.memtable().get(&internal_key) {
@@ -405,6 +445,9 @@ impl DB {
                         }
                     }
                 }
+
+                #[cfg(raindb_verif)]
+                crate::verif::sched_point(self.options.db_path(), "get_before_imm");
 
                 // Check the immutable memtable (i.e. the memtable pending compaction) if there is
                 // one
@@ -420,6 +463,9 @@ impl DB {
                         }
                     }
                 }
+
+                #[cfg(raindb_verif)]
+                crate::verif::sched_point(self.options.db_path(), "get_before_version");
 
                 // Check table files on disk
                 match current_version
@@ -535,8 +581,14 @@ impl DB {
 
         let mut db_state_iterator = MergingIterator::new(db_iterators);
         let db_state = self.generate_portable_state();
+        #[cfg(raindb_verif)]
+        let verif_iter_id = db_fields_guard.read_sampling_seed;
         db_state_iterator.register_cleanup_method(Box::new(move || {
             // Ensure that the version is released from the version set after use
+            #[cfg(raindb_verif)]
+            crate::verif::event(db_state.options.db_path(), "IterDrop", |_| {
+                vec![("id", crate::verif::Val::U(verif_iter_id))]
+            });
             db_state
                 .guarded_db_fields
                 .lock()
@@ -546,6 +598,17 @@ impl DB {
 
         let read_sampling_seed = db_fields_guard.read_sampling_seed;
         db_fields_guard.read_sampling_seed += 1;
+        #[cfg(raindb_verif)]
+        crate::verif::event(self.options.db_path(), "IterNew", |_| {
+            vec![
+                ("id", crate::verif::Val::U(read_sampling_seed)),
+                ("seq", crate::verif::Val::U(snapshot)),
+                (
+                    "imm",
+                    crate::verif::Val::B(db_fields_guard.maybe_immutable_memtable.is_some()),
+                ),
+            ]
+        });
 
         let client_iter = DatabaseIterator::new(
             self.generate_portable_state(),
@@ -1137,6 +1200,23 @@ impl DB {
             }
         }
 
+        #[cfg(raindb_verif)]
+        crate::verif::event(self.options.db_path(), "RecoverWal", |_| {
+            vec![
+                ("wal", crate::verif::Val::U(wal_number)),
+                ("last", crate::verif::Val::U(last_sequence_number)),
+                ("flushes", crate::verif::Val::U(num_compactions as u64)),
+                ("reused", crate::verif::Val::B(was_memtable_reused)),
+                (
+                    "walreused",
+                    crate::verif::Val::B(
+                        db_fields_guard.curr_wal_file_number == wal_number
+                            && !self.wal.load(Ordering::Acquire).is_null(),
+                    ),
+                ),
+            ]
+        });
+
         if !was_memtable_reused {
             // The memtable was not reused so compact it
             use_new_manifest = true;
@@ -1196,7 +1276,11 @@ impl DB {
         let mut is_first_writer = self.is_first_writer(&mut fields_mutex_guard, &writer);
         // Wait until it is the current writer's turn to write
         while !writer.is_operation_complete() && !is_first_writer {
+            #[cfg(raindb_verif)]
+            crate::verif::about_to_wait(self.options.db_path(), "writer_turn");
             writer.wait_for_turn(&mut fields_mutex_guard);
+            #[cfg(raindb_verif)]
+            crate::verif::woke(self.options.db_path(), "writer_turn");
             is_first_writer = self.is_first_writer(&mut fields_mutex_guard, &writer);
         }
 
@@ -1228,14 +1312,23 @@ impl DB {
                     WAL and to the memtable.
                     */
 
+                    #[cfg(raindb_verif)]
+                    crate::verif::sched_point(self.options.db_path(), "write_before_wal");
+
                     // Write the changes to the write-ahead log first
                     unsafe {
                         // SAFETY: RainDB only allows one writer thread at a time.
                         (*self.wal().get()).append(&Vec::<u8>::from(&write_batch))?;
                     }
 
+                    #[cfg(raindb_verif)]
+                    crate::verif::sched_point(self.options.db_path(), "write_after_wal");
+
                     // Write the changes to the memtable
                     DB::apply_batch_to_memtable(&**self.memtable(), &write_batch);
+
+                    #[cfg(raindb_verif)]
+                    crate::verif::sched_point(self.options.db_path(), "write_after_mem");
 
                     Ok(())
                 },
@@ -1255,6 +1348,42 @@ impl DB {
             fields_mutex_guard
                 .version_set
                 .set_prev_sequence_number(sequence_number_after_write);
+
+            #[cfg(raindb_verif)]
+            crate::verif::event(self.options.db_path(), "Commit", |_| {
+                use crate::verif::Val;
+                vec![
+                    ("first", Val::U(prev_sequence_number + 1)),
+                    ("ok", Val::B(write_result.is_ok())),
+                    ("wal", Val::U(fields_mutex_guard.curr_wal_file_number)),
+                    (
+                        "ops",
+                        Val::List(
+                            write_batch
+                                .iter()
+                                .map(|element| {
+                                    Val::Map(vec![
+                                        ("key", Val::Bytes(element.get_key().to_vec())),
+                                        (
+                                            "op",
+                                            Val::U(match element.get_operation() {
+                                                Operation::Put => 1,
+                                                Operation::Delete => 0,
+                                            }),
+                                        ),
+                                        (
+                                            "val",
+                                            element
+                                                .get_value()
+                                                .map_or(Val::Null, |val| Val::Bytes(val.clone())),
+                                        ),
+                                    ])
+                                })
+                                .collect(),
+                        ),
+                    ),
+                ]
+            });
         }
 
         loop {
@@ -1365,13 +1494,21 @@ impl DB {
                     "Current memtable is full but the previous memtable is still compacting. \
                     Waiting before attempting to compact current memtable."
                 );
+                #[cfg(raindb_verif)]
+                crate::verif::about_to_wait(self.options.db_path(), "room_imm");
                 self.background_work_finished_signal.wait(mutex_guard);
+                #[cfg(raindb_verif)]
+                crate::verif::woke(self.options.db_path(), "room_imm");
             } else if num_level_zero_files >= L0_STOP_WRITES_TRIGGER {
                 log::info!(
                     "Too many level 0 files. Waiting for compaction before proceeding with write \
                     operations."
                 );
+                #[cfg(raindb_verif)]
+                crate::verif::about_to_wait(self.options.db_path(), "room_l0");
                 self.background_work_finished_signal.wait(mutex_guard);
+                #[cfg(raindb_verif)]
+                crate::verif::woke(self.options.db_path(), "room_l0");
             } else {
                 if mutex_guard.version_set.maybe_prev_wal_number().is_some() {
                     let error_msg =
@@ -1426,6 +1563,16 @@ impl DB {
                 log::info!("Move the current memtable to the immutable memtable field.");
                 mutex_guard.maybe_immutable_memtable = Some(Arc::clone(&old_memtable));
                 self.has_immutable_memtable.store(true, Ordering::Release);
+                #[cfg(raindb_verif)]
+                crate::verif::event(self.options.db_path(), "Rotate", |_| {
+                    vec![
+                        ("newwal", crate::verif::Val::U(new_wal_number)),
+                        (
+                            "n",
+                            crate::verif::Val::U(old_memtable.len() as u64),
+                        ),
+                    ]
+                });
 
                 // Do not force another compaction since we have room
                 force_compaction = false;
@@ -1605,6 +1752,8 @@ impl DB {
             }
         }
 
+        #[cfg(raindb_verif)]
+        crate::verif::sched_point(options.db_path(), "flush_after_build");
         Ok(())
     }
 
@@ -1682,6 +1831,10 @@ impl DB {
             return;
         }
 
+        #[cfg(raindb_verif)]
+        crate::verif::event(db_state.options.db_path(), "BadState", |_| {
+            vec![("err", crate::verif::Val::S(catastrophic_error.to_string()))]
+        });
         mutex_guard.maybe_bad_database_state = Some(catastrophic_error);
         db_state.background_work_finished_signal.notify_all();
     }
@@ -1764,6 +1917,8 @@ impl DB {
         parking_lot::MutexGuard::<'_, GuardedDbFields>::unlocked_fair(
             db_fields_guard,
             || -> RainDBResult<()> {
+                #[cfg(raindb_verif)]
+                crate::verif::sched_point(db_state.options.db_path(), "flush_before_build");
                 DB::build_table_from_iterator(
                     &db_state.options,
                     &mut file_metadata,
@@ -1806,6 +1961,15 @@ impl DB {
             file_number,
             file_level
         );
+        #[cfg(raindb_verif)]
+        crate::verif::event(db_state.options.db_path(), "FlushBuilt", |_| {
+            vec![
+                ("f", crate::verif::Val::U(file_number)),
+                ("level", crate::verif::Val::U(file_level as u64)),
+                ("size", crate::verif::Val::U(file_metadata.get_file_size())),
+                ("n", crate::verif::Val::U(memtable.len() as u64)),
+            ]
+        });
 
         let stats = LevelCompactionStats {
             compaction_duration: compaction_instant.elapsed(),
@@ -2084,8 +2248,32 @@ impl DB {
         Unblock other threads while deleting files. All of the files being deleted have unique
         names that will not collide with newly created files so it is safe to release the lock.
         */
+        #[cfg(raindb_verif)]
+        let verif_db_path = file_name_handler.verif_db_path().to_string();
+        #[cfg(raindb_verif)]
+        crate::verif::event(&verif_db_path, "ObsoleteCollected", |_| {
+            use crate::verif::Val;
+            let mut live: Vec<u64> = live_files.iter().cloned().collect();
+            live.sort_unstable();
+            vec![
+                ("live", Val::List(live.into_iter().map(Val::U).collect())),
+                (
+                    "delete",
+                    Val::List(
+                        files_to_delete
+                            .iter()
+                            .map(|path| Val::S(path.to_string_lossy().to_string()))
+                            .collect(),
+                    ),
+                ),
+            ]
+        });
         parking_lot::MutexGuard::<'_, GuardedDbFields>::unlocked_fair(db_fields_guard, move || {
+            #[cfg(raindb_verif)]
+            crate::verif::sched_point(&verif_db_path, "obsolete_before_delete");
             for file in files_to_delete {
+                #[cfg(raindb_verif)]
+                crate::verif::sched_point(&verif_db_path, "obsolete_delete_one");
                 log::info!("Removing obsolete file: {:?}", &file);
                 if let Err(error) = filesystem_provider.remove_file(&file) {
                     log::error!(
@@ -2125,8 +2313,12 @@ impl DB {
             && db_fields_guard.maybe_bad_database_state.is_none()
         {
             log::debug!("Waiting for the forced compaction to complete");
+            #[cfg(raindb_verif)]
+            crate::verif::about_to_wait(self.options.db_path(), "force_flush");
             self.background_work_finished_signal
                 .wait(&mut db_fields_guard);
+            #[cfg(raindb_verif)]
+            crate::verif::woke(self.options.db_path(), "force_flush");
         }
 
         if db_fields_guard.maybe_immutable_memtable.is_some() {
@@ -2184,8 +2376,12 @@ impl DB {
             } else {
                 // A compaction is already in progress or the database is still processing this
                 // compaction request and just temporarily unlocked state
+                #[cfg(raindb_verif)]
+                crate::verif::about_to_wait(self.options.db_path(), "manual");
                 self.background_work_finished_signal
                     .wait(&mut db_fields_guard);
+                #[cfg(raindb_verif)]
+                crate::verif::woke(self.options.db_path(), "manual");
             }
         }
 
@@ -2247,10 +2443,16 @@ impl Drop for DB {
             finish."
         );
         self.is_shutting_down.store(true, Ordering::Release);
+        #[cfg(raindb_verif)]
+        crate::verif::event(self.options.db_path(), "Closing", |_| vec![]);
         while db_fields_guard.background_compaction_scheduled {
             log::info!("Detected pending background work. Waiting for it to finish.");
+            #[cfg(raindb_verif)]
+            crate::verif::about_to_wait(self.options.db_path(), "close");
             self.background_work_finished_signal
                 .wait(&mut db_fields_guard);
+            #[cfg(raindb_verif)]
+            crate::verif::woke(self.options.db_path(), "close");
 
             log::info!("Checking for more background work.");
         }
@@ -2283,6 +2485,44 @@ impl Drop for DB {
                 panic::resume_unwind(thread_panic_val);
             }
         }
+        #[cfg(raindb_verif)]
+        crate::verif::event(self.options.db_path(), "Closed", |_| vec![]);
+    }
+}
+
+#[cfg(raindb_verif)]
+impl DB {
+    /// Verification accessor: a dump of the guarded database state.
+    pub fn verif_state(&self) -> crate::verif::StateDump {
+        let db_fields_guard = self.guarded_fields.lock();
+        let queued = db_fields_guard.writer_queue.len();
+        crate::verif::dump_guarded(&db_fields_guard, queued)
+    }
+
+    /// Verification accessor: like [`DB::verif_state`] but gives up if the mutex cannot be taken
+    /// within `timeout`.
+    pub fn verif_try_state(
+        &self,
+        timeout: std::time::Duration,
+    ) -> Option<crate::verif::StateDump> {
+        let db_fields_guard = self.guarded_fields.try_lock_for(timeout)?;
+        let queued = db_fields_guard.writer_queue.len();
+        Some(crate::verif::dump_guarded(&db_fields_guard, queued))
+    }
+
+    /// Verification accessor: entries of the active memtable.
+    pub fn verif_memtable_entries(&self) -> crate::verif::Val {
+        crate::verif::memtable_entries(&**self.memtable())
+    }
+
+    /// Verification accessor: flush the active memtable and wait for the flush to finish.
+    pub fn verif_force_flush(&self) -> RainDBResult<()> {
+        self.force_memtable_compaction()
+    }
+
+    /// Verification accessor: the options the database was opened with.
+    pub fn verif_options(&self) -> &DbOptions {
+        &self.options
     }
 }
 
